@@ -13,4 +13,5 @@ CONSTANTS
   PsiMax = 1
   TinyLen = 0
 INVARIANT Laws
+INVARIANT LayoutBandAgrees
 CHECK_DEADLOCK FALSE
